@@ -254,6 +254,48 @@ def walk_nodes(g, v):
         yield from walk_nodes(g, v.val)
 
 
+def walk_plain_uuids(g, v):
+    import uuid as _u
+    if isinstance(v, _u.UUID):
+        yield v
+    elif isinstance(v, g.Offset):
+        yield from walk_plain_uuids(g, v.element_id)
+    elif isinstance(v, dict):
+        for k, x in v.items():
+            yield from walk_plain_uuids(g, k)
+            yield from walk_plain_uuids(g, x)
+    elif isinstance(v, (list, tuple, set, frozenset)):
+        for x in v:
+            yield from walk_plain_uuids(g, x)
+    elif isinstance(v, g.serialization.Variant):
+        yield from walk_plain_uuids(g, v.val)
+
+
+def tables_outlive_their_ir(ctx, g, auxinfo, ir, bs, tag):
+    """LIFETIME: the caller keeps only the tables of a loaded file (`tables = load(f).aux_data`), the IR variable is dropped and
+    garbage is collected before the first read.  A table names its nodes whenever it is read: entries naming attached nodes are node
+    objects (whatever keeps them alive is the library's business), never plain UUIDs."""
+    import gc
+    fresh = load_bytes(g, bs)
+    held = {c.uuid: c.aux_data for c in [fresh] + list(fresh.modules)}
+    attached = {n.uuid for n in content.reach(fresh)}
+    del fresh
+    gc.collect()
+    for cont, key, t, v in auxinfo:
+        if t[0] == "__raw__" or cont.uuid not in held or key not in held[cont.uuid]:
+            continue
+        try:
+            got = held[cont.uuid][key].data
+        except Exception:  # noqa: BLE001
+            continue
+        ctx.count("tables_read_after_their_ir_was_dropped")
+        lost = [u for u in walk_plain_uuids(g, got) if u in attached]
+        if lost:
+            ctx.add("oracle", "roundtrip:aux-identity", "AuxData table %r, read after the loaded IR was dropped by the caller and garbage collected (the tables were kept): "
+                    "%d entries naming attached nodes come back as plain UUIDs" % (key, len(lost)), {"tag": tag, "file": bs.hex(), "table": key})
+            return
+
+
 def roundtrip_stream(ctx, g, batch, ir, auxinfo, bs, tag):
     """RT: load(save(ir)) has the same content, deep_eq both ways, re-save gives the same content"""
     d7 = is_d7(g, ir)
@@ -312,6 +354,11 @@ def roundtrip_stream(ctx, g, batch, ir, auxinfo, bs, tag):
             ctx.count("second_loads")
         except Exception as e:  # noqa: BLE001
             ctx.add("oracle", "roundtrip:load-raised", "a second load of the same file raises %s" % exc_name(g, e), {"tag": tag, "file": bs.hex()})
+    if auxinfo:
+        try:
+            tables_outlive_their_ir(ctx, g, auxinfo, ir, bs, tag)
+        except Exception as e:  # noqa: BLE001
+            ctx.add("oracle", "roundtrip:load-raised", "loading the file once more raises %s" % exc_name(g, e), {"tag": tag, "file": bs.hex()})
     if auxinfo:
         # a COPY of a freshly loaded IR -- copy.deepcopy or a pickle round trip -- made before any table was read: a loaded IR like any
         # other (its tables decode against ITS nodes, its references are its own objects, it saves to the same message)
